@@ -59,6 +59,8 @@ func TestVerifC19ModInverseModPow(t *testing.T) {
 	r := vkit.Start(t, "C19", "modinverse-modpow", 120*time.Second, 600*time.Second)
 	defer r.Finish()
 	defer r.Watch(300*time.Second, nil)() // every evaluation here is micro- to milliseconds of arithmetic
+	tally := vkit.Tally{}
+	defer tally.Flush(r)
 	r.Rule = "ModInverse: all n in [2,2^9), all a in [0,n); ModPow: all m in [1,64), x in [0,64), y in [-8,8]; oracle: brute-force int64 reference incl. 'no inverse' reporting; non-trivial = distinct (function,args)"
 	for n := int64(2); n < 512; n++ {
 		if _, mine := r.Next(); !mine {
@@ -67,6 +69,7 @@ func TestVerifC19ModInverseModPow(t *testing.T) {
 		for a := int64(0); a < n; a++ {
 			r.Eval()
 			ia, ok := ModInverse(bi(a), bi(n))
+			tally[fmt.Sprintf("ModInverse:exists=%v", ok)]++
 			want := c19gcd(a, n) == 1
 			r.Nontrivial(fmt.Sprintf("inv|%d|%d", a, n))
 			if ok != want {
@@ -91,6 +94,7 @@ func TestVerifC19ModInverseModPow(t *testing.T) {
 				r.Eval()
 				r.Nontrivial(fmt.Sprintf("pow|%d|%d|%d", x, y, m))
 				got, err := ModPow(bi(x), bi(y), bi(m))
+				tally[fmt.Sprintf("ModPow:negative-exponent=%v:error=%v", y < 0, err != nil)]++
 				if y < 0 && c19gcd(x, m) != 1 {
 					if err == nil {
 						r.Violate("C19|ModPow|missing-inverse-not-reported", fmt.Sprintf("ModPow(%d,%d,%d)=%v without error although gcd=%d", x, y, m, got, c19gcd(x, m)), []int64{x, y, m})
@@ -130,6 +134,8 @@ func TestVerifC19LegendreCrt(t *testing.T) {
 	r := vkit.Start(t, "C19", "legendre-crt", 120*time.Second, 600*time.Second)
 	defer r.Finish()
 	defer r.Watch(300*time.Second, nil)() // every evaluation here is micro- to milliseconds of arithmetic
+	tally := vkit.Tally{}
+	defer tally.Flush(r)
 	r.Rule = "LegendreSymbol vs math/big.Jacobi: all odd p in [1,2^12), a in [-p,2p]; Crt: all coprime pa,pb in [2,64), all residues; oracle: Jacobi / brute-force congruence check; non-trivial = distinct (function,args)"
 	maxP := int64(vkit.Pick(1<<11, 1<<12))
 	r.Bounds["legendre_max_p"] = maxP
@@ -140,6 +146,7 @@ func TestVerifC19LegendreCrt(t *testing.T) {
 		for a := -p; a <= 2*p; a++ {
 			r.Eval()
 			got := LegendreSymbol(bi(a), bi(p))
+			tally[fmt.Sprintf("LegendreSymbol=%d", got)]++
 			want := mbig.Jacobi(mbig.NewInt(a), mbig.NewInt(p))
 			if got != want {
 				r.Violate("C19|LegendreSymbol|!=Jacobi", fmt.Sprintf("LegendreSymbol(%d,%d)=%d, Jacobi=%d", a, p, got, want), []int64{a, p})
@@ -180,6 +187,8 @@ func TestVerifC19Sqrt(t *testing.T) {
 	r := vkit.Start(t, "C19", "primesqrt-modsqrt", 150*time.Second, 900*time.Second)
 	defer r.Finish()
 	defer r.Watch(300*time.Second, nil)() // every evaluation here is micro- to milliseconds of arithmetic
+	tally := vkit.Tally{}
+	defer tally.Flush(r)
 	r.Rule = "PrimeSqrt: all odd primes p<2^12 (quick 2^11), all a in [0,p); ModSqrt: every ordered list of <=3 pairwise coprime factors from {4} U {odd primes<P} (P=24 quick, 48 thorough), all a in [0,n); oracle: existence by brute force, r^2=a mod n; non-trivial = distinct modulus/factor list"
 	maxP := int64(vkit.Pick(1<<11, 1<<12))
 	for p := int64(3); p < maxP; p += 2 {
@@ -196,6 +205,7 @@ func TestVerifC19Sqrt(t *testing.T) {
 		for a := int64(0); a < p; a++ {
 			r.Eval()
 			res, ok := PrimeSqrt(bi(a), bi(p))
+			tally[fmt.Sprintf("PrimeSqrt:root-exists=%v", ok)]++
 			if ok != sq[a] {
 				r.Violate("C19|PrimeSqrt|existence-misreported", fmt.Sprintf("PrimeSqrt(%d,%d) ok=%v want %v", a, p, ok, sq[a]), []int64{a, p})
 				continue
@@ -255,7 +265,9 @@ func TestVerifC19Sqrt(t *testing.T) {
 			r.Eval()
 			var res *big.Int
 			var ok bool
-			if pan, msg := vkit.Guard(func() { res, ok = ModSqrt(bi(a), fb) }); pan {
+			pan, msg := vkit.Guard(func() { res, ok = ModSqrt(bi(a), fb) })
+			tally[fmt.Sprintf("ModSqrt:factors=%d:root-exists=%v", len(fb), ok)]++
+			if pan {
 				r.Violate("C19|ModSqrt|panic", msg, map[string]any{"a": a, "factors": fl})
 				continue
 			}
@@ -279,6 +291,8 @@ func TestVerifC19FourSquares(t *testing.T) {
 	r := vkit.Start(t, "C19", "sumfoursquares", 200*time.Second, 1200*time.Second)
 	defer r.Finish()
 	defer r.Watch(300*time.Second, nil)() // every evaluation here is micro- to milliseconds of arithmetic
+	tally := vkit.Tally{}
+	defer tally.Flush(r)
 	r.Rule = "SumFourSquares: all n < 2^16 (quick) / 2^20 (thorough) plus the families 2^k, 2^k+-1, 2^k-c, 4^j*m for k up to 512; oracle: a^2+b^2+c^2+d^2 == n; non-trivial = distinct n"
 	N := int64(vkit.Pick(1<<16, 1<<20))
 	r.Bounds["exhaustive_below"] = N
@@ -286,7 +300,17 @@ func TestVerifC19FourSquares(t *testing.T) {
 	check := func(n *big.Int) {
 		r.Eval()
 		var a, b, c, d *big.Int
-		if pan, msg := vkit.Guard(func() { a, b, c, d = SumFourSquares(new(big.Int).Set(n)) }); pan {
+		pan, msg := vkit.Guard(func() { a, b, c, d = SumFourSquares(new(big.Int).Set(n)) })
+		if !pan {
+			nz := 0
+			for _, v := range []*big.Int{a, b, c, d} {
+				if v != nil && v.Sign() != 0 {
+					nz++
+				}
+			}
+			tally[fmt.Sprintf("SumFourSquares:nonzero-squares=%d", nz)]++
+		}
+		if pan {
 			r.Violate("C19|SumFourSquares|panic", msg, n.String())
 			return
 		}
@@ -334,12 +358,15 @@ func TestVerifC19FastMod(t *testing.T) {
 	r := vkit.Start(t, "C19", "fastmod", 200*time.Second, 1200*time.Second)
 	defer r.Finish()
 	defer r.Watch(300*time.Second, nil)() // every evaluation here is micro- to milliseconds of arithmetic
+	tally := vkit.Tally{}
+	defer tally.Flush(r)
 	r.Rule = "FastMod: every modulus p in [2,2^B) (B=8 quick, 9 thorough) with every x in [-4p^2,4p^2], and every p in [2,2^12) with x in [-2p,4p] U [p^2-2p,p^2+2p] U [4p^2-2p,4p^2]; each once with ret distinct from x and once aliased; one object re-Set along every sequence of 2 moduli in [2,2^6) and 3 moduli in [2,2^4) (and sequences mixing production-sized 2^b-c with general moduli), checked after every Set; oracle: Euclidean x mod p; non-trivial = distinct p"
 	B := uint(vkit.Pick(8, 9))
 	r.Bounds["full_window_bits"] = B
 	one := func(fm *FastMod, p, x int64) {
 		r.EvalN(2)
 		want := c19mod(x, p)
+		tally["FastMod:x "+c19fmClass(p, x)]++
 		var ret big.Int
 		ret.SetInt64(12345) // pre-existing junk
 		fm.Mod(&ret, bi(x))
